@@ -360,18 +360,20 @@ def c11_case(task):
     files = {'f': (b'a\nb\nc\n', 0o644), 'g': (b'', 0o644)}
     good = b'--- a/f\n+++ b/f\n@@ -1,3 +1,3 @@\n a\n-b\n+B\n c\n'
     if kind == 'patch':
+        if isinstance(payload, tuple):   # (files, patch): a workspace of its own
+            files, payload = payload
         ws.make_ws(root, files, {'p1.patch': payload}, ['p1.patch'])
     else:
         ws.make_ws(root, files, {'p1.patch': good}, [])
         with open(os.path.join(root, 'series'), 'wb') as f:
             f.write(b''.join(l + b'\n' for l in payload))
-    o = ws.run_rq(root, ['-a'], threads=threads, trace=os.path.join(d, 'trace'), timeout=8, mem_limit=4 << 30)
+    o = ws.run_rq(root, ['-a'], threads=threads, trace=os.path.join(d, 'trace'), timeout=8, mem_limit=1 << 30)
     out = {'evals': 1, 'violations': [], 'outcomes': {kind + ':exit-' + o.cls: 1}, 'nontrivial': 1 if o.cls == '0' else 0}
     if o.cls not in ('0', '1'):
         if kind == 'patch':
             s = payload.decode('latin-1')
             big = any(len(n) >= 10 for l in s.splitlines() if l.startswith('@@') for n in ''.join(c if c.isdigit() else ' ' for c in l).split())
-            c = 'hunk-header-with-huge-number' if big else 'token-sequence'
+            c = 'hunk-header-with-huge-number' if big else ('failing-hunk-of-lookalike-lines' if len(files) == 1 else 'token-sequence')
         else:
             c = 'series-file'
         out['violations'].append((c + ('+threads>1' if threads > 1 else '+threads=1'), o.cls,
@@ -420,6 +422,15 @@ def run_c11(tier, seed, res):
             inputs.append(('--- a/f\n+++ b/f\n@@ -%s,%s +%s,%s @@\n a\n-b\n+B\n c\n' % tuple(fld)).encode())
             # the same with a hunk that cannot match (the failure diagnostics then compute with these numbers)
             inputs.append(('--- a/f\n+++ b/f\n@@ -%s,%s +%s,%s @@\n a\n-X\n+B\n c\n' % tuple(fld)).encode())
+    # a first hunk with an extreme line number whose lines are found at the top of the file, followed by an ordinary hunk
+    for g in grid:
+        inputs.append(('--- a/f\n+++ b/f\n@@ -%s,2 +%s,2 @@\n a\n-b\n+B\n@@ -3 +3 @@\n-c\n+C\n' % (g, g)).encode())
+        inputs.append(('--- a/f\n+++ b/f\n@@ -%s,2 +%s,2 @@\n a\n-b\n+B\n@@ -3 +3 @@\n-X\n+C\n' % (g, g)).encode())
+    # a failing hunk and a file that share many lookalike lines (the comparison hint of the diagnostics looks at all pairs of them)
+    for n in (40, 150, 400):
+        for line in (b'\n', b'}\n'):
+            body = b' ' + line
+            inputs.append(({'f': (line * n, 0o644)}, b'--- a/f\n+++ b/f\n@@ -1,%d +1,%d @@\n' % (n + 1, n) + body * (n // 2) + b'-x\n' + body * (n - n // 2)))
     # failing hunks in systematic shapes of mismatch: the failure diagnostics (closest match, hints) of the default verbosity
     for fp in tq.failing_shapes(tq.initial(), 'e/i'):
         inputs.append(fp.text().replace(b'e/i', b'f'))
@@ -432,7 +443,7 @@ def run_c11(tier, seed, res):
     for i, r in enumerate(wsweep.pmap(c11_case, tasks)):
         if i % 1999 == 0:
             r = dict(r)
-            r['sample'] = {'kind': tasks[i][0], 'input': common.b2s(tasks[i][1]) if tasks[i][0] == 'patch' else [common.b2s(x) for x in tasks[i][1]], 'threads': tasks[i][2], 'outcome': sorted(r['outcomes'])}
+            r['sample'] = {'kind': tasks[i][0], 'input': common.b2s(tasks[i][1] if not isinstance(tasks[i][1], tuple) else tasks[i][1][1][:200]) if tasks[i][0] == 'patch' else [common.b2s(x) for x in tasks[i][1]], 'threads': tasks[i][2], 'outcome': sorted(r['outcomes'])}
         acc.add(r)
     acc.finish('cli_sweep')
     res.coverage['cli_spaces'] = sizes
